@@ -138,6 +138,8 @@ structure Pl where
   chans   : List Chan := []
   streams : List (UInt16 × InStream) := []
   acts    : List Act := []
+  /-- `dcep_reassembly`: DCEP messages being collected, per stream (absent = empty) -/
+  dcepBuf : List (UInt16 × Bytes) := []
 deriving DecidableEq, Repr, Inhabited
 
 structure Rx where
